@@ -41,7 +41,7 @@ inductive CollD (s : SchemaD) : Option String → List Sel → String → FEntry
       {dirs : List Dir} {hasSub : Bool} {ssid : Nat} {sub : List Sel} :
       Sel.field alias name args dirs hasSub ssid sub ∈ sels →
       CollD s parent sels (responseName alias name)
-        { parent, name, args, hasSub, ssid, sub, fdef := parent.bind fun p => fieldOf s p name }
+        { parent, name, args, hasSub, ssid, sub, fdef := parent.bind fun p => ovFieldOf s p name }
   | inline {parent : Option String} {sels : List Sel} {on : Option String} {dirs : List Dir} {id : Nat}
       {sub : List Sel} {rn : String} {e : FEntry} :
       Sel.inline on dirs id sub ∈ sels → CollD s (inlineParent s parent on) sub rn e → CollD s parent sels rn e
